@@ -106,22 +106,25 @@ class KindInfo:
         return "reset %s %s %d %s %d %s" % (self.kind, self.desc, self.flag, self.env, thr, " ".join(str(c) for c in (self.chosen + [-1] * 4)[:4]))
 
 
-def gen_module(ki, threads, ops, cpufam, nodefam, cpuflags, memflags, pols, lens, loadcomps):
+def cfg_record(ki, threads, ops, cpufam, nodefam, cpuflags, memflags, pols, lens, loadcomps, onlyinit):
+    """one configuration of MC_Bind: the topology kind as the real library shows it + an alphabet of calls"""
     nodes = "{" + ", ".join("[os |-> %d, cpus |-> %s]" % (o, tset(c)) for o, c in sorted(ki.Nodes.items())) + "}"
-    d = [("GCS", tset(ki.CS)), ("GCC", tset(ki.CC)), ("GCA", tset(ki.CA)), ("GNS", tset(ki.NS)), ("GNC", tset(ki.NC)),
-         ("GNA", tset(ki.NA)), ("GNodesC", nodes), ("GHooks", tstrs(ki.Hooks)), ("GKAllowed", tset(ki.KAllowed)),
-         ("GKMems", tset(ki.KMems)), ("GThreadsC", tstrs(threads)), ("GOps", tstrs(ops)), ("GCpuFam", tsets(cpufam)),
-         ("GNodeFam", tsets(nodefam)), ("GCpuFlagsC", tset(cpuflags)), ("GMemFlagsC", tset(memflags)), ("GPols", tset(pols)),
-         ("GLens", tset(lens)), ("GLoadComps", tstrs(loadcomps))]
-    return "---- MODULE MC_Bind_gen ----\nEXTENDS MC_Bind\n" + "\n".join("%s == %s" % x for x in d) + "\n====\n"
+    d = [("TS", "TRUE" if ki.ts else "FALSE"), ("CS", tset(ki.CS)), ("CC", tset(ki.CC)), ("CA", tset(ki.CA)), ("NS", tset(ki.NS)),
+         ("NC", tset(ki.NC)), ("NA", tset(ki.NA)), ("NodesC", nodes), ("Hooks", tstrs(ki.Hooks)), ("KAllowed", tset(ki.KAllowed)),
+         ("KMems", tset(ki.KMems)), ("ThreadsC", tstrs(threads)), ("Ops", tstrs(ops)), ("CpuFam", tsets(cpufam)),
+         ("NodeFam", tsets(nodefam)), ("CpuFlagsC", tset(cpuflags)), ("MemFlagsC", tset(memflags)), ("Pols", tset(pols)),
+         ("Lens", tset(lens)), ("LoadComps", tstrs(loadcomps)), ("OnlyInit", "TRUE" if onlyinit else "FALSE")]
+    return "[" + ",\n    ".join("%s |-> %s" % x for x in d) + "]"
 
 
-def gen_cfg(ki, onlyinit):
-    subst = "\n".join("  %s <- G%s" % (c, c) for c in ["CS", "CC", "CA", "NS", "NC", "NA", "NodesC", "Hooks", "KAllowed", "KMems", "ThreadsC",
-                                                        "Ops", "CpuFam", "NodeFam", "CpuFlagsC", "MemFlagsC", "Pols", "Lens", "LoadComps"])
-    return ("SPECIFICATION Spec\nCONSTANTS\n  TS = %s\n%s\n  OnlyInit = %s\n"
-            "VIEW View\nINVARIANTS TypeOK ForeignInert AffLegal EmitInit\nACTION_CONSTRAINT EmitEdge\nCHECK_DEADLOCK FALSE\n"
-            % ("TRUE" if ki.ts else "FALSE", subst, "TRUE" if onlyinit else "FALSE"))
+def gen_module(cfgs):
+    """MC_Bind_cfg.tla: the configurations MC_Bind explores (an extended module: TLC evaluates the definition once)"""
+    return ("---- MODULE MC_Bind_cfg ----\nEXTENDS Integers\nCfgs == [\n" +
+            ",\n".join("  %s |-> %s" % (tag, rec) for tag, rec in cfgs) + "]\n====\n")
+
+
+MC_CFG = ("SPECIFICATION Spec\nVIEW View\n"
+          "INVARIANTS TypeOK ForeignInert AffLegal EmitInit\nACTION_CONSTRAINT EmitEdge\nCHECK_DEADLOCK FALSE\n")
 
 
 # ---------------------------------------------------------------- TLC transitions -> behaviour text
@@ -251,7 +254,7 @@ def run(ctx, replay=None):
         ch = chosen_native if kind == "native" else sorted(ranges_to_set(ev["cs"]))[:4]
         kinds.append(KindInfo(name, kind, desc, flag, env, ev, ch))
 
-    # ---- (1) model runs: job = (tag, ki, thr, module text, cfg text, fraction of transitions toured, chunk)
+    # ---- (1) model runs: job = (configuration name, ki, thr, configuration record, fraction of transitions toured, chunk, weight)
     jobs = []
     allpols = [-1, 0, 1, 2, 3, 4, 5, 6]
     memflags_q = [0, 1, 2, 3, 4, 8, 16, 32, 33, 34, 36, 40, 44, 63, 64, 96, 1 << 20]
@@ -267,62 +270,76 @@ def run(ctx, replay=None):
             + ([S(5, 6)] if 5 in catoms and 6 in catoms else [])
         small_c = [a | b for a in topo4 for b in extras]
         # (A) argument validation / dispatch: every call of the full alphabet from the initial state
+        big = ki.name in ("native", "xmld_ts")
         jobs.append(("val_cpu_" + ki.name, ki, 0,
-                     gen_module(ki, ["main"], CPU_SET_OPS + CPU_GET_OPS, full_c, [S()], cpuflags, [0], [0], [1], []),
-                     gen_cfg(ki, True), 1.0, 60))
+                     cfg_record(ki, ["main"], CPU_SET_OPS + CPU_GET_OPS, full_c, [S()], cpuflags, [0], [0], [1], [], True), Q(1.0 if big else 0.25, 1.0), 60, 2))
         jobs.append(("val_mem_" + ki.name, ki, 0,
-                     gen_module(ki, ["main"], MEM_SET_OPS + MEM_GET_OPS, Q(small_c, full_c), full_n, [0],
-                                Q(memflags_q, memflags_t), allpols, [0, 1], []),
-                     gen_cfg(ki, True), Q(0.5, 1.0), 60))
+                     cfg_record(ki, ["main"], MEM_SET_OPS + MEM_GET_OPS, Q(small_c, full_c), full_n, [0],
+                                Q(memflags_q, memflags_t), allpols, [0, 1], [], True), Q(0.3 if big else 0.12, 1.0), 60, 2))
         if not ki.ts:
             continue
-        # (B) CPU round trip with a second thread: set / get / last location from every reachable pair of affinities
+        # (B) CPU round trip: set / get / last location from every reachable (pair of) thread affinities
         ok_c = [s for s in topo4 if s] + [frozenset(ki.CS), frozenset(ki.CC), S(), S(1, 7)] + ([S(6)] if 6 in catoms else [])
-        jobs.append(("rt_cpu_" + ki.name, ki, 1,
-                     gen_module(ki, ["main", "helper"], CPU_SET_OPS + CPU_GET_OPS, ok_c, [S()],
-                                Q([0, 1, 2, 3, 4, 5, 6, 16], [0, 1, 2, 3, 4, 5, 6, 8, 10, 16]), [0], [0], [1], []),
-                     gen_cfg(ki, False), Q(0.15, 1.0), 80))
+        two = thorough or ki.name == "native"
+        jobs.append(("rt_cpu_" + ki.name, ki, 1 if two else 0,
+                     cfg_record(ki, ["main", "helper"] if two else ["main"], CPU_SET_OPS + CPU_GET_OPS, ok_c, [S()],
+                                Q([0, 1, 2, 3, 4, 5, 6, 16], [0, 1, 2, 3, 4, 5, 6, 8, 10, 16]), [0], [0], [1], [], False), Q(0.1 if two else 0.5, 1.0), 80, 4 if two else 2))
         # (C) memory binding round trip through every reachable (thread policy, buffer policy)
-        ok_n = [s for s in powerset([a for a in natoms if a <= 4]) if s] + [S(), S(1, 7)]
-        ok_mc = [S(1), S(3), frozenset(ki.CS), S(1, 2), S(3, 4)]
-        jobs.append(("rt_mem_" + ki.name, ki, 0,
-                     gen_module(ki, ["main"], MEM_SET_OPS + MEM_GET_OPS, ok_mc, ok_n, [0],
-                                [0, 2, 32, 34, 36, 40, 44, 33, 4], [0, 1, 2, 3, 5, 4], [1], []),
-                     gen_cfg(ki, False), Q(0.3, 1.0), 80))
+        if thorough or ki.name in ("native", "synth_ts", "xmld_ts"):
+            ok_n = [s for s in powerset([a for a in natoms if a <= 4]) if s] + [S(), S(1, 7)]
+            ok_mc = [S(1), S(3), frozenset(ki.CS), S(1, 2), S(3, 4)]
+            jobs.append(("rt_mem_" + ki.name, ki, 0,
+                         cfg_record(ki, ["main"], MEM_SET_OPS + MEM_GET_OPS, Q(ok_mc[:3], ok_mc), ok_n, [0],
+                                    Q([0, 2, 32, 34, 36, 40, 33], [0, 2, 32, 34, 36, 40, 44, 33, 4]), [0, 1, 2, 3, 5, 4], [1], [], False), Q(0.1, 1.0), 80, 2))
         # (D) hwloc_topology_load() (default components, x86 only) from every binding of the calling thread
         if ki.name == "native":
             for thr in (0, 1):
                 jobs.append(("load_%s_%d" % (ki.name, thr), ki, thr,
-                             gen_module(ki, ["main", "helper"] if thr else ["main"], ["set_cpubind", "load"],
-                                        [s for s in topo4 if s], [S()], [2], [0], [0], [1], Q(["x86"] if thr else ["default", "x86"], ["default", "x86"])),
-                             gen_cfg(ki, False), 1.0, 40))
+                             cfg_record(ki, ["main", "helper"] if thr else ["main"], ["set_cpubind", "load"],
+                                        [s for s in topo4 if s], [S()], [2], [0], [0], [1], Q(["x86"] if thr else ["default", "x86"], ["default", "x86"]), False), 1.0, 40, 1))
 
     behs, meta = [], []
+    import time
+    t0 = time.time()
+    # one TLC run explores every configuration (the configuration is chosen in Init)
+    nrun = 2 if thorough else 1
+    groups = [jobs[i::nrun] for i in range(nrun)]
 
-    def one(job):
-        tag, ki, thr, mod, cfgt, frac, chunk = job
-        out, st = ctx.tlc_mc("MC_Bind_gen", cfgt, tag=tag, extra_modules=[("MC_Bind_gen.tla", mod)], workers=2, heap="3g", timeout=1500)
+    def run_group(gi):
+        grp = groups[gi]
+        out, st = ctx.tlc_mc("MC_Bind", MC_CFG, tag="mc%d" % gi, extra_modules=[("MC_Bind_cfg.tla", gen_module([(j[0], j[3]) for j in grp]))],
+                             workers=max(2, min(8, vlib.NCPU // nrun)), heap="6g", timeout=2400)
         if st["error"] or st["rc"] != 0:
-            raise vlib.Infra("model check %s failed (model-level, not a violation): %s\n%s" % (tag, st["error"], out[-2500:]))
-        init = next((tuple(x) for x in printed(out, "INIT")), None)
-        edges = [(tuple(e["s"]), tuple(e["d"]), e["c"]) for e in printed(out, "EDGE")]
-        if init is None or not edges:
-            raise vlib.Infra("model run %s emitted no transition" % tag)
-        hs, nuniq, ncalls = tours(init, edges, frac, chunk, random.Random(ctx.seed * 7919 + len(tag)))
-        return [beh_text(ki, thr, h) for h in hs], (tag, st["distinct"], nuniq, len(hs), ncalls)
+            raise vlib.Infra("model check of MC_Bind failed (model-level, not a violation): %s\n%s" % (st["error"], out[-3000:]))
+        inits = {x["g"]: tuple(x["s"]) for x in printed(out, "INIT")}
+        edges = {}
+        for e in printed(out, "EDGE"):
+            edges.setdefault(e["g"], []).append((tuple(e["s"]), tuple(e["d"]), e["c"]))
+        return inits, edges
 
-    with cf.ThreadPoolExecutor(max_workers=max(1, vlib.NCPU // 2)) as ex:
-        for job, (res, m) in zip(jobs, ex.map(one, jobs)):
-            behs += res
-            meta.append(m)
-
+    with cf.ThreadPoolExecutor(max_workers=nrun) as ex:
+        results = list(ex.map(run_group, range(nrun)))
+    vlib.log("C10: model runs %.0fs" % (time.time() - t0))
+    for job in jobs:
+        tag, ki, thr, rec, frac, chunk, w = job
+        inits, edges = next(r for r in results if tag in r[0])
+        if not edges.get(tag):
+            raise vlib.Infra("configuration %s has no transition" % tag)
+        hs, nuniq, ncalls = tours(inits[tag], edges[tag], frac, chunk, random.Random(ctx.seed * 7919 + len(tag)))
+        behs += [beh_text(ki, thr, h) for h in hs]
+        meta.append((tag, nuniq, len(hs), ncalls))
+    vlib.log("C10: model runs + tours %.0fs, %d behaviours" % (time.time() - t0, len(behs)))
     # group behaviours with the same topology so that the recorder's topology cache is effective (order is deterministic)
     ctx.samples = [behs[0], behs[len(behs) // 2], behs[-1]]
     bf = ctx.path("behaviours.txt")
     open(bf, "w").write("".join(behs))
     tf = ctx.path("trace.ndjson")
+    t0 = time.time()
     ctx.record(exe, bf, tf, timeout=3000)
+    vlib.log("C10: recorded in %.0fs (%d MB)" % (time.time() - t0, os.path.getsize(tf) >> 20))
+    t0 = time.time()
     rejs = ctx.validate("TraceBind", tf, cfg=vcfg)
+    vlib.log("C10: validated in %.0fs" % (time.time() - t0))
     ctx.handle_rejections(rejs, behs, replay_fn)
     return ctx.finish(
         rule="behaviours = transition tours of the bounded binding model: every (thorough) or a seeded fraction (quick) of the transitions "
